@@ -172,8 +172,83 @@ func runHasNextCase(c *Ctx, kind string, opts int, pattern string, input []rune)
 	c.model(op, showTks(got), "model")
 }
 
+// a tokenizer that is re-configured AFTER it was used: its tokens for the next input equal those of a new tokenizer that
+// was given the same configuration before its first use (nothing looked up for the earlier input may survive)
+func runReconfigHistory(c *Ctx, kind string, prev []rune, ops []cfgOp, input []rune) {
+	ss := make([]string, len(ops))
+	for i, o := range ops {
+		ss[i] = o.String()
+	}
+	op := fmt.Sprintf("rhist %s %s %s %s", kind, runesStr(prev), strings.Join(ss, "~"), runesStr(input))
+	c.record(op, len(prev) > 0 && len(input) > 0)
+	c.count("reconfigured-after-use")
+	var got []tk
+	st := safeCallT(5*time.Second, func() string {
+		t := newTokenizer(kind).(cfgTokzr)
+		setOpts(t, 0)
+		t.TokenizeBuffer(string(prev))
+		for _, o := range ops {
+			applyCfgOp(t, o)
+		}
+		got = conv(t.TokenizeBuffer(string(input)))
+		return ""
+	})
+	fresh, st2 := tokenizeCfg(kind, 0, ops, input)
+	if st != "" || st2 != "" {
+		if st != st2 {
+			c.fail(Failure{Kind: "oracle", Op: op, Impl: st, Spec: st2, Note: "re-configured tokenizer ended with " + st + ", a new one with the same configuration with " + st2})
+		}
+		return
+	}
+	if !eqTks(got, fresh) {
+		c.fail(Failure{Kind: "oracle", Op: op, Impl: showTks(got), Spec: showTks(fresh),
+			Note: fmt.Sprintf("after tokenizing %q the tokenizer was re-configured (%s); for %q it gives %s, a new tokenizer with the same configuration gives %s", string(prev), strings.Join(ss, " "), string(input), showTks(got), showTks(fresh))})
+		return
+	}
+	c.model(tokcLine(kind, 0, ops, input), showTks(got), "model")
+}
+
+func propReconfig(c *Ctx) {
+	sets := [][]cfgOp{
+		{{k: "D", lo: '#', hi: '#', x: "s"}},
+		{{k: "D", lo: 'a', hi: 'z', x: "0"}},
+		{{k: "D", lo: '0', hi: '9', x: "w"}},
+		{{k: "D", lo: '"', hi: '"', x: "s"}, {k: "D", lo: '\'', hi: '\'', x: "w"}},
+		{{k: "D", lo: ' ', hi: ' ', x: "s"}},
+		{{k: "D", lo: '/', hi: '/', x: "s"}, {k: "D", lo: '<', hi: '>', x: "w"}},
+		{{k: "D", lo: 0x400, hi: 0x4ff, x: "s"}, {k: "D", lo: 0x4e00, hi: 0x9fff, x: "w"}},
+		{{k: "W", lo: '-', hi: '-', x: "1"}, {k: "B", lo: '_', hi: '_', x: "1"}, {k: "D", lo: '_', hi: '_', x: "b"}},
+		{{k: "Y", v: []rune("=:="), typ: 7}, {k: "Y", v: []rune("<<<"), typ: 7}},
+	}
+	texts := []string{"x # remark", "a #b", "ab 12 'q' \"r\" /*c*/ <= ж世 _ -", "1 2 3", "a-b _c =:= <<< d", "# ж 世 \"", "<a> /b/ 'c"}
+	for _, k := range []string{"g", "e"} {
+		for _, ops := range sets {
+			for _, prev := range texts {
+				for _, in := range texts {
+					runReconfigHistory(c, k, []rune(prev), ops, []rune(in))
+				}
+			}
+		}
+	}
+	n := 200
+	if c.Thorough {
+		n = 5000
+	}
+	for i := 0; i < n; i++ {
+		k := []string{"g", "e"}[c.Rng.Intn(2)]
+		ops := randCfgOps(c, 1+c.Rng.Intn(3))
+		in := cfgInput(c, k, ops)
+		prev := cfgInput(c, k, ops)
+		if c.Rng.Intn(2) == 0 {
+			prev = append(append([]rune(nil), in...), prev...)
+		}
+		runReconfigHistory(c, k, prev, ops, in)
+	}
+}
+
 func propC05(c *Ctx) {
 	propScaleHistories(c)
+	propReconfig(c)
 	kinds := []string{"g", "e", "m", "c:44:34"}
 	optSets := []int{0, 2 | 4 | 8 | 64, 127}
 	for _, k := range kinds {
@@ -258,6 +333,18 @@ func replayC05(c *Ctx, op string) {
 		var o int
 		fmt.Sscanf(f[2], "%d", &o)
 		runHasNextCase(c, f[1], o, f[3], parseRunes(f[4]))
+	case "rhist":
+		if len(f) == 5 {
+			var ops []cfgOp
+			for _, s := range strings.Split(f[3], "~") {
+				if o, ok := parseCfgOp(s); ok {
+					ops = append(ops, o)
+				}
+			}
+			runReconfigHistory(c, f[1], parseRunes(f[2]), ops, parseRunes(f[4]))
+		}
+	case "tokc":
+		replayTokC(c, op)
 	default:
 		if calcReplay != nil {
 			calcReplay(c, op)
